@@ -14,8 +14,10 @@ RULE = ('layer 1: every single edit (drop/empty/duplicate-value/bogus attribute;
         'empty/blank/comment-only/unterminated-comment/stray-token/half text block; truncation after every ">" and every '
         '97th byte) of 4 seed documents x {4.x,3.x syntax} x {Document+TypeChecker+FeatureChecker, PrettyPrinter} x '
         '{xml-buffer} plus xml-file/xml-fd for a stride; layer 2: libFuzzer fork-mode campaigns over byte-level targets '
-        '(xml, xta, query on 3 base documents, every xta_part_t) with a dictionary and the committed seed corpus; layer 3 '
-        '(thorough): CPU-time scaling probe over input families. Non-trivial: the input reached the grammar (the position '
+        '(xml, xta, query on 3 base documents, every xta_part_t) with a dictionary and the committed seed corpus; layer 1b: a rich XTA '
+        'text damaged at every (quick: every second) token position followed by a valid probe in the same process; layer 3: '
+        'CPU-time scaling probe over 40 input families (sizes n, 2n, 4n, 8n up to 64 KiB; cpu(8n)/cpu(n) <= 8^2.5, cpu <= 20 s, '
+        'no crash). Non-trivial: the input reached the grammar (the position '
         'tracker advanced, i.e. at least one block was handed to the parser); distinct = distinct input bytes x configuration.')
 
 
@@ -88,10 +90,40 @@ def enum_worker(chk, wi, nw):
     return st
 
 
+def history_worker(chk, wi, nw):
+    """layer 1b: a damaged rich XTA text followed by a valid probe in the SAME process (the grammar keeps file-static state):
+    a crash of the probe after the poison is a crash of a parsing entry point"""
+    import prop_C15 as H
+    st = common.Stats()
+    orc = oracle.Oracle(os.path.join(chk.workdir, 'h%d' % wi), cpu_limit=30)
+    pool = H.pool()
+    ex = H.Exec(orc, pool)
+    rp = H.rich_poisons(1 if chk.tier == 'thorough' else 2)
+    probes = ['rich-xta', 'xml-valid', 'rich-declarations-part']
+    for k, (name, stp) in enumerate(rp):
+        if k % nw != wi:
+            continue
+        ex.pool[name] = ('poison', stp)
+        steps = [ex.step(name), ex.step(probes[k % len(probes)])]
+        for s_ in steps:
+            s_['dump'] = 'inv'
+        resp = orc.request(steps)
+        st.case('history:%s|%s' % (name, probes[k % len(probes)]), nontrivial=True, classes=['history:' + name.split('@')[0]],
+                sample={'history': [name, probes[k % len(probes)]]})
+        v = verdict(resp)
+        if v:
+            chk.report(st, v[1], 'history [%s, %s]: %s' % (name, probes[k % len(probes)], v[2][:1500]), {'kind': 'request', 'steps': steps})
+    orc.close()
+    return st
+
+
 def confirm(case):
     if case.get('kind') == 'fuzz':
         import c01_fuzz
         return c01_fuzz.confirm_fuzz(case)
+    if case.get('kind') == 'scaling':
+        import c01_scaling
+        return c01_scaling.confirm(case)
     orc = oracle.Oracle(os.path.join(common.WORK, 'C01', 'confirm'), cpu_limit=20)
     try:
         resp = orc.request(case['steps'])
@@ -122,11 +154,16 @@ def run(chk):
     chk.assumptions = ['deciding configuration: clang 14 -O1 -DNDEBUG with ASan+UBSan (the baseline is RelWithDebInfo, i.e. NDEBUG)',
                        'leaks are not checked (an exception leaving utap_parse skips buffer deletion by construction)',
                        'std::logic_error "basic_string: construction from null" counts as a violation (std::string from a null attribute is UB)']
-    layers = os.environ.get('C01_LAYERS', 'replay,enum,fuzz,scaling').split(',')
+    layers = os.environ.get('C01_LAYERS', 'replay,enum,history,scaling,fuzz').split(',')
     if 'replay' in layers:
         run_replays(chk)
     if 'enum' in layers:
         chk.run_workers(enum_worker)
+    if 'history' in layers:
+        chk.run_workers(history_worker)
+    if 'scaling' in layers:
+        import c01_scaling
+        chk.run_workers(c01_scaling.worker)
     if 'fuzz' in layers:
         import c01_fuzz
         c01_fuzz.run(chk)
